@@ -21,7 +21,7 @@ P = {
  "C07": (True, "seq", "online monitor over deletion events: each Overflow/Expiration event is judged against the model's total weight / deadline at that moment",
    "Held on the explored sequences: an automatic removal is accepted only if the model's physical weight total exceeded the maximum (or the entry alone does) respectively the deadline had passed; zero-weight evictions and Overflow without a bound are violations.",
    "For multi-install operations of unweighted caches the sound upper bound of the total is used.", "4/C07"),
- "C10": (True, "seq; slow loaders (the manual clock advances inside the loader); own-executor scenarios (one caller goroutine, maintenance on the default executor: a successful load must be cached once the executor is idle)", "differential runtime monitor over loader-controlled outcomes (value, error, ErrNotFound, panic, partial/extra/empty bulk maps), no-op computations run from inside loaders, cancelled contexts",
+ "C10": (True, "seq", "differential runtime monitor over loader-controlled outcomes (value, error, ErrNotFound, panic, partial/extra/empty bulk maps), no-op computations run from inside loaders, cancelled contexts; slow loaders (the manual clock advances inside the loader); own-executor scenarios (one caller goroutine, maintenance on the default executor: a successful load must be cached once the executor is idle)",
    "Held on the explored sequences: (result, error), loader argument lists and the cache contents after every Get/BulkGet equal the model's.",
    "Loader outcomes are driven by the harness; bulk error outcomes return no partial map.", "4/C10"),
  "C11": (True, "seq", "differential runtime monitor around refresh deadlines with a same-goroutine executor + concurrent scenarios with a gated loader (readers during an in-flight reload, a second explicit refresh joining it, refresh messages judged at quiescence); race detector",
@@ -30,7 +30,7 @@ P = {
  "C12": (True, "seq", "differential runtime monitor on ExpiresAtNano/RefreshableAtNano after every operation, durations up to MaxInt64, three clock origins",
    "Held on the explored sequences: after every operation each key's deadlines equal operation time + the policy's duration with saturation, and visibility flips exactly at the deadline.",
    "Durations are drawn in [1ns, MaxInt64]; calculators returning <= 0 are outside the stated quantifier.", "4/C12"),
- "C13": (True, "seq; size-eviction variant of the reader schedules; structural audit after CleanUp (every table node has exactly one timer)", "runtime monitor of the sweep rule at every CleanUp (entries older than one tick must be gone and reported as expired) over generated sequences, writer-parked-in-NowNano schedules, reader-versus-sweep schedules (reader parked in the clock, released at yield points inside the maintenance pass) and deadline-extension scenarios",
+ "C13": (True, "seq", "runtime monitor of the sweep rule at every CleanUp (entries older than one tick must be gone and reported as expired) over generated sequences, writer-parked-in-NowNano schedules, reader-versus-sweep schedules (reader parked in the clock, released at yield points inside the maintenance pass) and deadline-extension scenarios; size-eviction variant of the reader schedules; structural audit after CleanUp (every table node has exactly one timer)",
    "Held on the explored sequences: TTLs from ns to years, clock jumps up to many wheel revolutions; entries whose deadline was moved backwards are exempt (the property's proviso).",
    "Tick = 2^30 ns; sequential schedules plus writer/maintenance clock-parked schedules.", "4/C13"),
  "C19": (True, "seq", "round-trip differential monitor: source cache driven by a generated sequence, SaveCacheTo, clock offset, LoadCacheFrom into an empty cache with equal/larger/smaller maximum",
@@ -39,19 +39,19 @@ P = {
  "C20": (True, "seq", "differential runtime monitor: Stats() snapshot compared with model tallies after every operation; counters sampled for monotonicity under concurrency",
    "Held on the explored histories: hits/misses per counting operation, load successes/failures per loader invocation by outcome, evictions/weight paired with Overflow/Expiration events.",
    "A panicking compute function is not counted as a lookup (the call does not complete).", "4/C20"),
- "C02": (True, "conc; late-extension scenarios (a reader parked in ExpireAfterRead extends the deadline of a node a writer has just judged expired)", "linearizability checking of recorded concurrent histories (porcupine v1.3.0, per key; loaders answering value or not-found, cancelled contexts) + callback counter + exact read-back of churn keys during table growth + Go race detector, with PRNG delays at verif yield points",
+ "C02": (True, "conc", "linearizability checking of recorded concurrent histories (porcupine v1.3.0, per key; loaders answering value or not-found, cancelled contexts) + callback counter + exact read-back of churn keys during table growth + Go race detector, with PRNG delays at verif yield points; late-extension scenarios (a reader parked in ExpireAfterRead extends the deadline of a node a writer has just judged expired)",
    "Held on the recorded histories: each key's sub-history (explicit operations, loader-backed Get split into read-miss and install, automatic removals as operations bounded by the two handlers) has a linearization; compute functions ran exactly once.",
    "Schedules are sampled; checker timeouts are reported as inconclusive; quiet reads and iterators are not part of the histories.", "4/C02"),
  "C04": (True, "conc", "quiescence monitor: bound on the weights of All() after one CleanUp, Overflow events of zero-weight values, VerifAudit weightedSize <= maximum; trials with expiry on a worker-driven manual clock and with a stalled executor (full write buffer); race detector",
    "Held on the explored concurrent trials (inserts, weight-changing updates, reads, invalidations, SetMaximum; sync / async / default executors; delays between table update and write-buffer publish).",
    "Judged only after all calls returned, the executor is idle and exactly one CleanUp ran.", "4/C04"),
- "C05": (True, "conc; late-extension scenarios; the same structural audit in the sequential engine after every CleanUp", "quiescence monitor: view equalities (WeightedSize, EstimatedSize, Hottest/Coldest vs All) + white-box structural audit of deques, weight totals and timer wheel through VerifAudit; race detector",
+ "C05": (True, "conc", "quiescence monitor: view equalities (WeightedSize, EstimatedSize, Hottest/Coldest vs All) + white-box structural audit of deques, weight totals and timer wheel through VerifAudit; race detector; late-extension scenarios; the same structural audit in the sequential engine after every CleanUp",
    "Held on the explored concurrent trials: every table node is alive and linked exactly once in the queue its flag names, per-queue weight sums equal the running totals, nothing dead is linked.",
    "The audit reads internal state through the verif-tag export under the eviction lock; schedules are sampled.", "4/C05"),
- "C06": (True, "conc; late-extension scenarios (return value, atomic cause and deferred cause must agree)", "offline checker over both deletion-handler logs: exactly-once, conservation (written = present + reported), handler agreement, cause explanation, per-key order along the install chain (concurrent trials with a size bound, not-found loaders and a stalled-executor variant; phased trials with expiry) + exact per-operation event multiset in the sequential engine incl. the queued-executor mode; race detector",
+ "C06": (True, "conc", "offline checker over both deletion-handler logs: exactly-once, conservation (written = present + reported), handler agreement, cause explanation, per-key order along the install chain (concurrent trials with a size bound, not-found loaders and a stalled-executor variant; phased trials with expiry) + exact per-operation event multiset in the sequential engine incl. the queued-executor mode; race detector; late-extension scenarios (return value, atomic cause and deferred cause must agree)",
    "Held on the explored trials, sequential (exact expected event multiset per operation, in the C01 engine) and concurrent (replacement racing with eviction, InvalidateAll racing with writers, sync and async executors).",
    "Unique values make the histories unambiguous; OnDeletion is judged after the executor is idle.", "4/C06"),
- "C14": (True, "conc; racing pairs with a read of an expired unswept entry (idle entry into the drain scheduling); full-buffer scenarios with a tight release", "quiescence audit without any further cache call (VerifAudit: drain status idle, write buffer empty, weightedSize <= maximum, notifications delivered) over thousands of short trials with the default executor made countable, a racing-pairs stress on one long-lived cache (audit after each of 10^5+ rounds) and full-write-buffer scenarios under a lock-holding iteration; delays at the drain-protocol yield points",
+ "C14": (True, "conc", "quiescence audit without any further cache call (VerifAudit: drain status idle, write buffer empty, weightedSize <= maximum, notifications delivered) over thousands of short trials with the default executor made countable, a racing-pairs stress on one long-lived cache (audit after each of 10^5+ rounds) and full-write-buffer scenarios under a lock-holding iteration; delays at the drain-protocol yield points; racing pairs with a read of an expired unswept entry (idle entry into the drain scheduling); full-buffer scenarios with a tight release",
    "Held on the explored trials: liveness is restated as a safety property of the quiescent state; all four drain states and both CAS failure paths are exercised (hook log).",
    "For-all-interleavings is sampled; VerifSetDefaultExecutor replaces the package default executor only to count its goroutines.", "4/C14"),
  "C08": (True, "conc", "runtime monitor over loader entry/exit intervals and call results of concurrent bursts (single-flight overlap rule, waiter results, every requested key of a BulkGet accounted for, exactly-one refresh message, no in-flight record left, stall watchdog with goroutine dump); race detector",
@@ -60,10 +60,10 @@ P = {
  "C09": (True, "conc", "loader-controlled scenario enumeration (load kind x write kind x write position, parked at the load.beforeInstall yield point) + straddle scenarios (the writer parked inside its Weigher / calculator / atomic handler, i.e. before publication, while the load starts) + jittered stress, oracle: a loaded value is never observed as current after an effective write called after the loader entry",
    "Held on the explored scenarios and stress histories. Defect D8 (a write straddling the start of the load), first recorded as a known finding, was repaired in /repo (53c1460); its witness family stays in the check as a violation detector.",
    "A load is taken to be in flight from its loader entry (the latest start a black box can see), so the oracle never demands more than the statement.", "4/C09"),
- "C15": (True, "comp; degraded key hashes through the hook VerifSetHash (long bucket chains, equal meta bytes); keys whose value is replaced during cache-level iterations; Clear under concurrent growth", "component stress of the real table (internal/hashmap through a verif-tag wrapper): porcupine per hot key, stable-key presence under growth/shrink, Range once-only / nothing removed before start, Size at quiescence, Clear; cache-level iteration under churn and InvalidateAll under write load; race detector (+ asan in the thorough tier)",
+ "C15": (True, "comp", "component stress of the real table (internal/hashmap through a verif-tag wrapper): porcupine per hot key, stable-key presence under growth/shrink, Range once-only / nothing removed before start, Size at quiescence, Clear; cache-level iteration under churn and InvalidateAll under write load; race detector (+ asan in the thorough tier); degraded key hashes through the hook VerifSetHash (long bucket chains, equal meta bytes); keys whose value is replaced during cache-level iterations; Clear under concurrent growth",
    "Held on the explored trials with churn goroutines that grow and shrink the table repeatedly and initial capacities from 0 to 10^4; observed growths/shrinks and chain lengths are reported.",
    "Hash collisions within a chain cannot be forced (seeded maphash): chains get long only by load.", "4/C15"),
- "C16": (True, "comp; cache-level scenarios: consumption order with a stalled executor and a full buffer, a refused-then-retried offer after the buffer was filled from an iteration body", "component stress of the real MPSC write buffer: exactly-once, per-producer order, justified refusals, Size <= capacity, sequential capacity sweep over (initial,max) pairs; race detector (+ asan)",
+ "C16": (True, "comp", "component stress of the real MPSC write buffer: exactly-once, per-producer order, justified refusals, Size <= capacity, sequential capacity sweep over (initial,max) pairs; race detector (+ asan); cache-level scenarios: consumption order with a stalled executor and a full buffer, a refused-then-retried offer after the buffer was filled from an iteration body",
    "Held on the explored trials with 1-16 producers, delays between index CAS and element publication and inside resize.",
    "A refusal is judged with the sound bound (pushes begun before it returned minus pops completed before it was called >= capacity).", "4/C16"),
  "C17": (True, "comp", "component stress of the real striped ring buffer: delivered is a subset of recorded, at most once, bounded length, complete after quiescence; cache-level use-site scenario (readers + InvalidateAll/iterations/SetMaximum, buffer empty after a quiescent CleanUp); race detector (+ asan)",
